@@ -2,7 +2,8 @@
 
 use generic_array::{ArrayLength, GenericArray};
 use harness::engine::{self, Acc, Args, Report};
-use harness::registry::{self, Tracked};
+use harness::registry::{self, Tracked, TrackedZst};
+use generic_array::typenum::{U1048576, U2097152, U262144, U524288};
 use harness::with_lat;
 use serde::de::value::U32Deserializer;
 use serde::de::{self, DeserializeSeed, Deserializer, SeqAccess, Visitor};
@@ -211,6 +212,11 @@ pub enum Op {
     /// bincode input truncated to `k` elements
     BincodeTruncated(usize),
     Script(Script),
+    /// the same with zero-sized drop-tracked elements
+    ScriptZst(Script),
+    /// arrays of 1 MiB and more: 0 = 2 MiB of u64 via bincode, 1 = exactly 1 MiB of u8 via bincode, 2 = 2 MiB of u8 via bincode,
+    /// 3 = 2 MiB of u32 from the scripted source with an exact hint, 4 = the same, one element short
+    Large(u8),
 }
 
 #[derive(Clone, Debug, serde::Serialize, Deserialize, PartialEq, Eq, Hash)]
@@ -403,11 +409,89 @@ fn exec_n<N: ArrayLength>(case: &Case, acc: &mut Acc) -> Result<(), String> {
             acc.count(nontrivial, case);
             acc.class(if expect_ok { "script_accept" } else if !hint_ok { "script_reject_upfront_hint" } else if s.c != n { "script_reject_count" } else { "script_reject_element_error" });
         }
+        Op::ScriptZst(s) => {
+            let r = engine::catch(|| GenericArray::<TrackedZst, N>::deserialize(ScriptDe { s: *s, base }));
+            let r = match r {
+                Ok(r) => r,
+                Err(c) => return Err(format!("deserialisation panicked instead of returning a result: {}", c.msg)),
+            };
+            let hint_ok = s.upfront.is_none() || s.upfront == Some(n);
+            let expect_ok = hint_ok && s.c == n && s.err_at.map(|e| e >= n).unwrap_or(true);
+            match r {
+                Ok(a) => {
+                    if !expect_ok {
+                        return Err(format!("accepted although the source offered {} elements (up-front hint {:?}, element error at {:?}) for N = {n}", s.c, s.upfront, s.err_at));
+                    }
+                    if a.len() != n {
+                        return Err("deserialised array has the wrong length".into());
+                    }
+                }
+                Err(_) => {
+                    if expect_ok {
+                        return Err(format!("rejected a source that delivered exactly N = {n} elements (up-front hint {:?})", s.upfront));
+                    }
+                    let (made, gone) = registry::zst_counts();
+                    if made != gone {
+                        return Err(format!("rejected, but {} of the {made} zero-sized elements already read were not dropped", made - gone));
+                    }
+                }
+            }
+            let nontrivial = !expect_ok;
+            acc.count(nontrivial, case);
+            acc.class(if expect_ok { "script_zst_accept" } else if !hint_ok { "script_zst_reject_upfront_hint" } else if s.c != n { "script_zst_reject_count" } else { "script_zst_reject_element_error" });
+        }
+        Op::Large(_) => unreachable!(),
     }
     engine::end_case(false)
 }
 
+fn large(which: u8, base: u32, acc: &mut Acc, case: &Case) -> Result<(), String> {
+    fn bincode_rt<T, N: ArrayLength>(mk: impl Fn(usize) -> T) -> Result<(), String>
+    where
+        T: Serialize + for<'de> Deserialize<'de> + PartialEq,
+    {
+        let arr: Box<GenericArray<T, N>> = (0..N::USIZE).map(&mk).collect();
+        let bytes = bincode::serialize(&*arr).map_err(|e| e.to_string())?;
+        if bytes.len() != N::USIZE * core::mem::size_of::<T>() {
+            return Err(format!("bincode encoding of {} elements is {} bytes", N::USIZE, bytes.len()));
+        }
+        let back: GenericArray<T, N> = bincode::deserialize(&bytes).map_err(|e| format!("bincode round trip of an array of {} bytes failed: {e}", bytes.len()))?;
+        if back != *arr {
+            return Err("bincode round trip of a large array returned different contents".into());
+        }
+        Ok(())
+    }
+    registry::reset();
+    match which {
+        0 => bincode_rt::<u64, U262144>(|i| i as u64 ^ base as u64)?,
+        1 => bincode_rt::<u8, U1048576>(|i| (i as u32 ^ base) as u8)?,
+        2 => bincode_rt::<u8, U2097152>(|i| (i as u32 ^ base) as u8)?,
+        _ => {
+            let n = 524288usize;
+            let c = if which == 3 { n } else { n - 1 };
+            let s = Script { c, upfront: Some(c), later_hints: true, err_at: None };
+            let r = GenericArray::<u32, U524288>::deserialize(ScriptDe { s, base });
+            match (which, r) {
+                (3, Ok(a)) => {
+                    if a[0] != base || a[n - 1] != base + (n as u32 - 1) {
+                        return Err("large scripted deserialisation returned different contents".into());
+                    }
+                }
+                (3, Err(e)) => return Err(format!("a truthful source with an exact hint of N = {n} elements (2 MiB) was rejected: {e}")),
+                (_, Ok(_)) => return Err("a source one element short was accepted".into()),
+                (_, Err(_)) => {}
+            }
+        }
+    }
+    acc.count(true, case);
+    acc.class("arrays_of_1MiB_and_more");
+    Ok(())
+}
+
 pub fn exec(case: &Case, acc: &mut Acc) -> Result<(), String> {
+    if let Op::Large(w) = case.op {
+        return large(w, case.base, acc, case);
+    }
     with_lat!(case.n, N, exec_n::<N>(case, acc))
 }
 
@@ -455,10 +539,16 @@ pub fn main() {
                     };
                     for err_at in errs {
                         g.push(Case { n, op: Op::Script(Script { c, upfront, later_hints, err_at }), base: rnd() });
+                        if n <= 33 {
+                            g.push(Case { n, op: Op::ScriptZst(Script { c, upfront, later_hints, err_at }), base: rnd() });
+                        }
                     }
                 }
             }
         }
+    }
+    for w in 0..5u8 {
+        g.push(Case { n: 0, op: Op::Large(w), base: rnd() });
     }
     let acc = engine::parallel(&args, PROP, |w, workers, acc| {
         for (i, c) in g.iter().enumerate() {
@@ -474,7 +564,7 @@ pub fn main() {
         Report {
             prop: PROP,
             level: "exploration",
-            rule: "case = (N in the 34-length lattice, operation, seeded values). Formats: a recording Serializer must see serialize_tuple(N), exactly N elements in index order, end; bincode bytes must equal the concatenation of the element encodings (and the native tuple's for arities 1,2,3,4,7,12); JSON must equal the JSON of the Vec; JSON text, serde_json::Value and bincode round trips for u8/u32/f64/String/drop-tracked elements. Rejection: JSON lists with 0, N-1, N, N+1, N+2 items (text and Value), bincode input truncated at every element boundary, and a scripted deserializer delivering every count 0..=N+2 with every up-front hint (none, N, N-1, N+1, the true count, 0), truthful or absent later hints and an element error at every index. \
+            rule: "case = (N in the 34-length lattice, operation, seeded values). Formats: a recording Serializer must see serialize_tuple(N), exactly N elements in index order, end; bincode bytes must equal the concatenation of the element encodings (and the native tuple's for arities 1,2,3,4,7,12); JSON must equal the JSON of the Vec; JSON text, serde_json::Value and bincode round trips for u8/u32/f64/String/drop-tracked elements. Rejection: JSON lists with 0, N-1, N, N+1, N+2 items (text and Value), bincode input truncated at every element boundary, and a scripted deserializer delivering every count 0..=N+2 with every up-front hint (none, N, N-1, N+1, the true count, 0), truthful or absent later hints and an element error at every index (24-byte and zero-sized drop-tracked elements); arrays of 1 MiB and 2 MiB through bincode and through the scripted source with an exact hint. \
                    Oracle: Ok iff (up-front hint absent or = N) and count = N and no error at a reached index; on Err every element the source produced has been dropped and nothing is returned; deserialisation never panics. \
                    non-trivial = rejecting cases and round trips with N >= 1; distinct = distinct case tuples",
             exhaustive: false,
